@@ -135,3 +135,13 @@ CHECKS.update({
                     'arriving at every instant, the batcher content is the not-yet-emitted suffix in order, no input is accepted while unpacking, '
                     'buffer level and census count leaves, routing-history updates reach contained parts.'},
 })
+
+CHECKS['C14'] = {
+    'harnesses': ['harness.c14_repro'],
+    'text': 'Bounded model checking on real models where tie-breaks decide outcomes (merge into a capacity-1 buffer, fan-out to equal machines): '
+            '(a) the model is run twice in one symbolic path, the second run replaying the same symbolic weights from a symbolic asset-id '
+            'offset, and all recorded data, counters and the final clock must agree after subtracting the offset from id fields; (b) run(a); '
+            'run(b) against run(a+b) for a symbolic split point with weights attached by event creation order; (c) simulate_multiple_times '
+            'under a synchronous executor stub: one system per index, in index order, equal to the in-process results. Real worker processes '
+            'are outside (stated).',
+}
